@@ -5,6 +5,8 @@ restored afterwards. `Sampler.run` reaches all wrapped methods through `self.` l
 reference bypasses a wrapper; every wrapper counts its invocations (Hooks.counts).
 """
 import hashlib
+import os
+import time as _time
 
 import numpy as np
 
@@ -48,6 +50,21 @@ class Hooks:
         self._saved = []
         self._depth = 0
         self._member_draws = 0
+        self._rounds = 0
+        self._t_enter = _time.monotonic()
+        self.case_seconds = int(os.environ.get('NMON_CASE_SECONDS', '420'))
+
+    def _tick(self):
+        """One top-level bound.sample() call. sample_shell loops until a batch is full; a broken tree can make every
+        round come back empty, so that loop never ends although each round is cheap. Bound the number of rounds between
+        two likelihood batches (a healthy shell needs n_batch/p rounds at worst, see the proposal budget)."""
+        self._rounds += 1
+        if self.budget is not None and self._rounds > 400000:
+            raise BudgetExceeded('%d proposal rounds without completing a batch' % self._rounds)
+        if self.budget is not None and self._rounds % 256 == 0 and _time.monotonic() - self._t_enter > self.case_seconds:
+            # cooperative wall-clock guard: only ever turns a case into "skipped (too expensive)" - never a verdict -
+            # and lets the violations the monitors already recorded be reported instead of being lost to the watchdog
+            raise BudgetExceeded('case exceeded %d s of wall clock inside the sampling loop' % self.case_seconds)
 
     def emit(self, event, *a, **kw):
         self.counts[event] = self.counts.get(event, 0) + 1
@@ -62,6 +79,7 @@ class Hooks:
 
     def __enter__(self):
         import nautilus.sampler as ns
+        self._t_enter = _time.monotonic()
         from nautilus.bounds import UnitCube, NautilusBound, Union
         S = ns.Sampler
         hooks = self
@@ -111,6 +129,7 @@ class Hooks:
         def evaluate_likelihood(self, points):
             if hooks.clock is not None:
                 hooks.clock.since_progress = 0
+            hooks._rounds = 0
             hooks.emit('before_eval', self, points)
             n0 = self.n_like
             r = o_ev(self, points)
@@ -148,6 +167,7 @@ class Hooks:
         def uc_sample(self, n_points=100, pool=None):
             r = o_ucs(self, n_points, pool=pool)
             if hooks._depth == 0:      # not the cube of a mixture member inside a NautilusBound
+                hooks._tick()
                 hooks.handed_out += len(r)
                 hooks.proposals += len(r)
                 if hooks.budget is not None and hooks.proposals > hooks.budget:
@@ -163,6 +183,8 @@ class Hooks:
                 r = o_nbs(self, n_points=n_points, return_points=return_points, pool=pool)
             finally:
                 hooks._depth -= 1
+            if hooks._depth == 0:
+                hooks._tick()
             if r is not None and hooks._depth == 0:
                 hooks.handed_out += len(r)
             return r
